@@ -28,7 +28,16 @@ def route(m, r, tmp):
     p = os.path.join(tmp, "m.h5")
     m.save(p)
     return qutils.load_qmodel(p, compile=False)
+  if r == "RT_H5User":
+    # the caller passes custom objects of their own: the library's classes still need no entry
+    p = os.path.join(tmp, "mu.h5")
+    m.save(p)
+    return qutils.load_qmodel(p, custom_objects={"UserThing": UserThing}, compile=False)
   raise ValueError(r)
+
+
+class UserThing(tf.keras.layers.Layer):
+  """A user-defined class that the models do not even use."""
 
 
 def probe(m, x):
@@ -54,6 +63,8 @@ def main():
     seqs = [[r] for r in ROUTES] + [list(p) for p in (pairs if tier == "thorough" else rnd.sample(pairs, 2))]
     # histories: a frozen layer (trainable=False) must survive the routes as well
     seqs.append(["frozen", rnd.choice(ROUTES)])
+    if j % 3 == shard % 3:
+      seqs.append(["RT_H5User"])
     for seq in seqs:
       t += 1
       frozen = seq[0] == "frozen"
